@@ -231,8 +231,8 @@ def run(P, R):
     fmr = factmap(rf)
     clr = [a for a in own_nodes(rf.node) if isinstance(a, ast.Assign) and ast.unparse(a.targets[0]) == 'self.forced_state']
     ok = len(clr) == 1 and isinstance(clr[0].value, ast.Constant) and clr[0].value.value is None and \
-        {tuple(f) for f in fmr.at(clr[0])} == {('self.forced_state is not None', True), ('self.forced_state is None', False),
-                                               ('state != ProcessStates.STOPPED', True),
+        {tuple(f) for f in fmr.at(clr[0])} == {('self.forced_state is None', False), ('self.forced_state is None', False),
+                                               ('state == ProcessStates.STOPPED', False),
                                                ('state == ProcessStates.STOPPED', False)}
     R.check(r5, ok, 'the forced state is cleared by any report but a first STOPPED snapshot', 'forced|reset', rf.loc(),
             'reset_forced_state clears under %s' % [sorted(tuple(f) for f in fmr.at(a)) for a in clr])
